@@ -4,9 +4,9 @@ package main
 
 import (
 	"fmt"
-	"runtime"
 	"net/http"
 	"reflect"
+	"runtime"
 	"sort"
 	"strconv"
 	"strings"
